@@ -86,9 +86,26 @@ def run(ctx):
               "; ".join(sorted(set(bad))[:3]) or "fewer than two validation "
               "raises", loc=m.loc(call, call.node))
 
+    def converted_vs_written(atom):
+        # Lemma: whether the conversion changed *this* entry's name says
+        # nothing about the table of the earlier entries' converted names (or
+        # anything else the reference observes): {'ABC': f, 'abc': g} and
+        # {'abc': f, 'ABC': g} collide with the second name unchanged resp.
+        # changed, {'abc': f} / {'ABC': f} do not collide either way.  Every
+        # joint valuation is feasible, so a mismatch under such an atom is a
+        # definite one.
+        if atom[0] not in ("ord", "eq") or len(atom) != 3:
+            return False
+        for a, b in ((atom[1], atom[2]), (atom[2], atom[1])):
+            if isinstance(a, tuple) and a and a[0] == "call" \
+                    and a[1] == ("attr", ("self",), "_convert") \
+                    and a[2] == (b,):
+                return True
+        return False
     crosscheck(ctx, "C16.R2", CH + ".__call__", REF, "composite_call", CH,
                "convert names, refuse duplicates, collect missing, call "
-               "non-None callbacks with the entry's value")
+               "non-None callbacks with the entry's value",
+               independent=converted_vs_written)
     crosscheck(ctx, "C16.R2", CH + ".__init__", REF, "composite_init", CH,
                "keeps the list object; converter is basic-key")
     crosscheck(ctx, "C16.R3", CH + ".__len__", REF, "composite_len", CH,
